@@ -4,46 +4,46 @@ import json, os
 V = os.path.dirname(os.path.dirname(os.path.abspath(__file__)))
 T = {
  "C01": ("exploration", "small-scope exhaustive enumeration (strings x modifier sets x buffers) vs naive reference matcher", "3/C01",
-         "every text string over a 4-byte alphabet up to a length bound x every legal modifier set x every buffer up to a length bound is scanned by the real engine and compared offset-by-offset with a by-definition matcher; exhaustive inside the bound, silent outside",
+         "every text string over a 4-byte alphabet up to a length bound (plus all 256 byte values through 7 templates with case-bit flips) x every legal modifier set x every buffer up to a length bound is scanned by the real engine and compared offset-by-offset (offset, length, xor key) with a by-definition matcher; exhaustive inside the bound, silent outside",
          "reference matcher ref_text (harness/refmatch.h) encodes the manual's modifier semantics; gcc/clang; bounded alphabet and lengths"),
  "C02": ("exploration", "small-scope exhaustive enumeration (hex patterns x buffers) vs position-set reference", "3/C02",
-         "every hex pattern of a bounded grammar x every buffer over 4 byte values; chains reached with a scaled threshold build and with the real 200-byte threshold", "ref_hex position-set semantics; scaled-limit build is a different instantiation of the same source"),
+         "every hex pattern of a bounded grammar x every buffer over 4 byte values; chains reached with a scaled threshold build and with the real 200-byte threshold; window family: every fixed-length run of 5..8 one-byte elements (longer than the atom window) against its own instance / near-miss buffers", "ref_hex position-set semantics; scaled-limit build is a different instantiation of the same source"),
  "C03": ("exploration", "small-scope exhaustive enumeration (regex ASTs x buffers) vs position-set reference", "3/C03",
-         "every regex AST up to a node bound, greedy and lazy, x flags x every buffer over a 6-letter alphabet compared with a set-of-positions regex semantics", "ref_re; bounded AST size and alphabet"),
+         "every regex AST up to a node bound, greedy and lazy, x flags x every buffer over a 6-letter alphabet compared with a set-of-positions regex semantics; families with one and two counted repeats around the atom; window family of 5..8 one-character nodes (plain, grouped, alternation branch, counted)", "ref_re; bounded AST size and alphabet"),
  "C04": ("exploration", "exhaustive enumeration of condition sub-languages vs independent evaluator", "3/C04",
-         "complete operator tables, precedence pairs, undefined placements, string queries, of/for forms evaluated by the real VM and by a Python evaluator written from the manual", "ref_cond evaluator (lib/refcond.py)"),
+         "complete operator tables, precedence pairs, undefined placements, string queries, of/for forms, and a grid of constant operator expressions as at / in / reader operands, evaluated by the real VM and by a Python evaluator written from the manual", "ref_cond evaluator (lib/refcond.py)"),
  "C05": ("exploration", "exhaustive enumeration of rule sub-multisets and orders, twin + reference oracle", "3/C05",
-         "every ordered subset of a rule pool (and every small set of strings over {a,b}) compiled together vs alone; traces must agree", "pool composition; reference matcher for the automaton sub-space"),
+         "every ordered subset of a rule pool (and every small set of strings over {a,b}) compiled together vs alone; every pool rule after N filler rules with N around the bitmap boundaries 8/64/128/256; every cut of a namespace text into add calls and includes; traces must agree", "pool composition; reference matcher for the automaton sub-space"),
  "C06": ("exploration", "exhaustive 1-deviation neighbourhood of seed files under ASan/UBSan", "3/C06",
-         "every truncation and every single boundary-value byte/field deviation of in-tree executables is scanned with generated all-fields rules under sanitizers; nothing is claimed beyond the neighbourhood", "seed set; sanitizer as crash oracle; UBSan groups disabled as listed in DESIGN 5"),
+         "every truncation and every single boundary-value byte/field deviation of in-tree executables (little- and big-endian ELF, PE, Mach-O, DEX, .NET) and of a synthetic .NET image with recursive metadata is scanned with generated all-fields rules under sanitizers; nothing is claimed beyond the neighbourhood", "seed set; sanitizer as crash oracle; UBSan groups disabled as listed in DESIGN 5"),
  "C07": ("exploration", "exhaustive token-level 1-deviation neighbourhood of seed rules + all short token sequences, under ASan with leak accounting", "3/C07",
-         "every truncation / token deletion / duplication / dictionary substitution of a seed corpus is compiled; crash, diagnosis and leak oracles", "seed corpus and dictionary; wrapped allocator accounting"),
+         "every truncation / token deletion / duplication / dictionary substitution of a seed corpus is compiled; all short token sequences for conditions, strings and regexes (regexes with strict escape checking off and on, which must agree); one source per compile-time error code; crash, diagnosis (non-empty message, line number) and leak oracles", "seed corpus and dictionary; wrapped allocator accounting"),
  "C08": ("exploration", "exhaustive construct pairs x stream chunkings, twin oracle", "3/C08",
-         "every pair of constructs saved and reloaded through every chunking; traces, metadata and bytes compared; API histories of depth<=3", "construct list"),
+         "every pair of constructs saved and reloaded through every chunking; traces, metadata and bytes compared; file API over absent / shorter / longer existing files; API histories of depth<=3", "construct list"),
  "C09": ("model_checking", "preemption-bounded exhaustive schedule enumeration of real threads under a cooperative scheduler + free-running TSan pass", "3/C09",
-         "all interleavings (bounded preemptions) of 2-3 real scanning threads at hooked synchronisation points; per-thread trace equals solo trace; handler/use-count invariants in every state", "scheduler serialises threads (no weak memory); plain data races only via the TSan pass"),
+         "all interleavings (bounded preemptions; unbounded for two threads in the thorough tier) of 2-3 real scanning threads at hooked synchronisation points and callbacks, seven scenarios incl. equal-size buffers with logged module values and a match-limit overflow on a scaled build; per-thread trace equals solo trace; handler/use-count invariants in every state", "scheduler serialises threads (no weak memory); plain data races only via the TSan pass"),
  "C10": ("model_checking", "explicit-state BFS over scan histories on the real scanner, fresh-scanner differential oracle", "3/C10",
-         "every history of scans/outcomes up to a depth; each step compared with the same scan on a new scanner; leak accounting", "alphabet of scans/outcomes"),
+         "every history of scans/outcomes (normal, abort/error at every message, timeout at every poll, match limit, fiber-pool exhaustion, not-ready resumed/abandoned for text/ELF/PE) up to a depth; each step compared with the same scan on a new scanner; leak accounting after destroy", "alphabet of scans/outcomes"),
  "C11": ("model_checking", "exhaustive enumeration of rule sequences x flag settings x callback-answer scripts against a protocol automaton", "3/C11",
          "the callback's answers are the environment: every rule sequence up to length 3/4 x flags x buffers x every script with <=2 non-continue answers is run on the real scanner and compared message-by-message with the protocol model", "protocol model ref_cb written from the property text"),
  "C12": ("exploration", "exhaustive twin enumeration (fast mode, atom tables, forced evaluation, constant/expression/external rewrites)", "3/C12",
          "each rewrite family is enumerated completely over its space and the verdicts compared with the un-rewritten rule and with the reference value", "ref_cond for folded values"),
  "C13": ("model_checking", "exhaustive enumeration of block partitions x not-ready answer subsets on the real scanner", "3/C13",
-         "the iterator's answers are the environment: every partition x every subset of calls answering not-ready; final trace must equal the uninterrupted one", "iterator model in the worker"),
+         "the iterator's answers are the environment: every partition x every subset of calls answering not-ready; final trace must equal the uninterrupted one; rule by rule a partition that cuts none of the rule's occurrences must equal the whole-buffer scan; 8 entry points x 10 sizes", "iterator model in the worker"),
  "C14": ("exploration", "exhaustive (offset,length,partition) enumeration vs hashlib/zlib/math", "3/C14",
          "all (offset,length) pairs over small buffers x block partitions x call orders compared with python reference implementations", "hashlib, zlib, python math"),
  "C15": ("exploration", "boundary enumeration per limit + exhaustive timeout poll index under a harness-owned clock", "3/C15",
-         "each limit at L-1, L, L+1, far beyond, for every configured L; timeout at every poll index", "virtual clock; scaled-limit build"),
+         "each limit at L-1, L, L+1, far beyond, for every configured L; every loop-iterator kind at every stack size and the regex code-size limit at one-byte granularity under ASan; timeout at every poll index", "virtual clock; scaled-limit build"),
  "C16": ("fault_enumeration", "exhaustive allocation-failure enumeration (every k, single and persistent) under ASan with leak accounting", "3/C16",
          "for every scenario and every allocation index k the k-th allocation fails; error/complete-correctly oracle, leak and canary oracles", "link-time malloc wrap sees libyara/flex allocations only"),
  "C17": ("fault_enumeration", "exhaustive prefix (crash point) and header-field corruption enumeration of saved rule files", "3/C17",
-         "every prefix of saved images and every field corruption is loaded; a success must behave like the intact rules", "set of saved images"),
+         "every prefix of saved images and every field corruption is loaded; header fields and buffer offsets have one legal value (reference layout); any other accepted image must behave like the intact rules", "set of saved images"),
  "C18": ("model_checking", "preemption-bounded schedule enumeration of the real CLI main under a scheduler shim + TLA+/TLC model of the queue bound to the code by transition-set equality and path replay + black-box differential", "3/C18",
          "all schedules (bounded preemptions, state-hash pruned) of the real cli/yara.c main with 1-3 threads over small directories; TLC explores the queue model for larger parameters; at the smallest parameters the model's state graph and the implementation's complete exploration have equal abstract transition sets and a path to every model transition is replayed on the implementation", "threading shim replaces cli/threading.c; model bound at small parameters"),
  "C19": ("exploration", "exhaustive sweep of initial arena capacities (every growth position) with twin oracle under ASan", "3/C19",
          "each rule set compiled with every initial capacity c in a range covering every allocation point; traces and saved bytes must be identical", "YARA_VERIF hook in yr_compiler_create"),
  "C20": ("model_checking", "explicit-state BFS over define/create/scan histories vs a 3-level environment model", "3/C20",
-         "every history up to a depth is executed on the real objects; return codes and probe-rule verdicts compared with the model in every step", "environment model ref_env"),
+         "every history up to a depth is executed on the real objects (six variables of four types, identifiers in prefix relation, unknown / wrongly typed definitions); return codes and probe-rule verdicts compared with the model in every step", "environment model ref_env"),
 }
 ENGINE = {"C01": "space", "C02": "space", "C03": "space", "C05": "space+yvw", "C09": "yvsched+c09", "C18": "yvsched+c18+tlc"}
 NA_REASON = "check not built yet in this session (planned in DESIGN.md section 3); not claimed until its quick tier has run end-to-end on the unchanged tree"
